@@ -97,6 +97,17 @@ def gen_args(rng, f, malformed_rate=0.15):
                 vals[p] = coords6(rng, rows, cols, slices)
             else:
                 vals[p] = tuple(rng.randint(0, 5) for _ in range(6))
+        elif t == 'hdr':
+            vals[p] = (rng.choice([Fr(7, 10), Fr(1, 2), Fr(1), dyadic(rng, 0, 2, 4) + Fr(1, 16)]),
+                       rng.choice([Fr(2, 5), Fr(1, 2), Fr(3, 2), dyadic(rng, 0, 2, 4) + Fr(1, 16)]),
+                       rng.choice([Fr(1), Fr(2), Fr(1, 2)]), rng.choice([Fr(-1024), Fr(0), Fr(10), Fr(21, 2)]),
+                       7, rng.choice(['int', 'float']))
+        elif p == 'img' and t == 'Q':
+            vals[p] = rng.choice([rng.randint(-2000, 4000), rng.randint(-10, 10), 0, 3071])
+        elif p == 'slope':
+            vals[p] = rng.choice([Fr(1), Fr(2), Fr(1, 2), Fr(3, 2), Fr(1, 4)])
+        elif p == 'intercept':
+            vals[p] = rng.choice([Fr(-1024), Fr(0), Fr(10), Fr(21, 2), Fr(-1, 2)])
         elif p in ('scale_x', 'scale_y', 'scale_z'):
             vals[p] = dyadic(rng, 0, 4, 3) + Fr(1, 8)
         elif p == 'erosion_rate':
